@@ -153,7 +153,8 @@ def _eval(node, path="root"):
             raise Discard()
         n = node["n"]
         xa = _dec(ao, "operand")
-        res = round(ao, n)
+        res = round(ao, n) if n is not None else round(ao)      # round(a) is rounding to 0 places
+        n = 0 if n is None else n
         what = "round(%s)" % c
         if type(res) is not type(ao):
             raise Fail("%s: the result changed class" % what, expected=type(ao).__name__, observed=type(res).__name__,
@@ -165,6 +166,12 @@ def _eval(node, path="root"):
             raise Fail("%s to %d places changes the angle by more than half a unit of that place" % (what, n),
                        expected={"deg": xa, "max_change_deg": lim}, observed={"operand": repr(ao), "result": repr(res), "deg": got},
                        bucket=what + " value")
+        # ... and the rounded field has no more than n places
+        field = {"dec": lambda: float(res), "gon": lambda: float(res), "dms": lambda: res.second, "ddm": lambda: res.minute}[c]()
+        scaled = field * 10.0 ** n
+        if not abs(scaled - round(scaled)) <= 1e-6 * max(1.0, abs(scaled)) * 1e-3 + 1e-9:
+            raise Fail("%s to %d places leaves more than %d places" % (what, n, n), expected="a multiple of 1e-%d" % n,
+                       observed={"operand": repr(ao), "result": repr(res), "field": field}, bucket=what + " not rounded")
         return res, got, TOL_DEG, False
     raise HarnessError("unknown op %r" % op)
 
@@ -198,6 +205,38 @@ def check_tree(case):
                        expected={"deg": ref, "tol_arcsec": tol * 3600}, observed={"deg": got, "result": repr(o),
                                                                                  "diff_arcsec": abs(got - ref) * 3600},
                        bucket="tree value")
+        # "whichever notations its operands are held in": the same tree under other assignments of classes to its leaves
+        # (the five homogeneous ones and the generated ones); all must give the angle of the float evaluation
+        import random
+        nleaf = len(_leaves(root, []))
+        assigns = [[c] * nleaf for c in CLS]
+        for sd in case.get("assign", []):
+            rnd = random.Random(sd)
+            assigns.append([rnd.choice(CLS) for _ in range(nleaf)])
+        for a in assigns:
+            t2 = _reassign(root, iter(a))
+            try:
+                o2, ref2, tol2, exact2 = _eval(t2)
+            except Discard:
+                continue        # e.g. a modulo whose left operand is no longer a DMS / DDM object
+            if not exact2:
+                continue
+            got2 = _dec(o2, "expression")
+            if not abs(got2 - ref) <= max(tol, tol2):
+                raise Fail("the expression evaluates to a different angle when its operands are held in other notations",
+                           expected={"deg": ref, "tol_arcsec": max(tol, tol2) * 3600},
+                           observed={"classes": a, "deg": got2, "result": repr(o2), "diff_arcsec": abs(got2 - ref) * 3600},
+                           bucket="tree value (other notations)")
+
+
+def _reassign(node, classes):
+    if node["op"] == "leaf":
+        return dict(node, cls=next(classes))
+    out = dict(node)
+    for k in ("l", "r", "a"):
+        if k in node:
+            out[k] = _reassign(node[k], classes)
+    return out
 
 
 # ------------------------------------------------------------------------------------------------ generators
@@ -253,7 +292,7 @@ def _extend(children):
         st.builds(lambda a, k, n: {"op": "div", "a": a, "k": k, "knum": n}, children, k_s, knum_s),
         st.builds(lambda a, m, n: {"op": "mod", "a": a, "m": m, "knum": n}, children,
                   st.one_of(st.sampled_from([360, 180, 90, 1, 360.0, -90, -360.0]), S.floats(0.1, 360.0)), knum_s),
-        st.builds(lambda a, n: {"op": "round", "a": a, "n": n}, children, st.integers(0, 6)),
+        st.builds(lambda a, n: {"op": "round", "a": a, "n": n}, children, st.one_of(st.integers(0, 6), st.integers(0, 9), st.none())),
         _exact_multiple_mod(),
     )
 
@@ -264,7 +303,7 @@ root_s = st.one_of(tree_s, tree_s, tree_s,
                    # equal angles held in two different classes
                    st.builds(lambda o, c1, c2, v: {"op": o, "l": {"op": "leaf", "cls": c1, "v": v}, "r": {"op": "leaf", "cls": c2, "v": v}},
                              st.sampled_from(["eq", "ne", "lt", "gt"]), st.sampled_from(CLS), st.sampled_from(CLS), _wholeminute()))
-cases = root_s.map(lambda t: {"tree": t})
+cases = st.builds(lambda t, a: {"tree": t, "assign": a}, root_s, st.lists(st.integers(0, 2 ** 30), min_size=1, max_size=3))
 
 
 def _leaves(node, acc):
